@@ -113,7 +113,7 @@ class FieldCase:
 
 
 # ------------------------------------------------------------------------------------------------ (B)
-OPS = ["step", "step3", "sync", "add", "remove", "edit_last"]
+OPS = ["step", "step3", "sync", "add", "remove", "edit_last", "reset"]
 
 
 def histories(depth, cfg=None):
@@ -137,6 +137,8 @@ def histories(depth, cfg=None):
                     continue
                 if op == "sync" and (not h or h[-1] == "sync"):
                     continue
+                if op == "reset" and (not h or h[-1] == "reset" or not structural):
+                    continue        # after steps only: the integrator's arrays exist then and vanish from the next (delta) snapshot
                 nxt.append(h + [op])
         out += nxt
         frontier = nxt
@@ -169,6 +171,12 @@ def apply_op(rebound, sim, cfg, op):
     elif op == "remove":
         sim.synchronize()
         sim.remove(index=sim.N - 1, keep_sorted=not bool(sim._tree_root))
+    elif op == "reset":
+        # documented way to drop the integrator's temporary state; it also returns the integrator's options to their defaults,
+        # which the harness sets again (both the original and the restored simulation go on from the same state)
+        sim.synchronize()
+        sim.reset_integrator()
+        lattice.apply_options(sim, cfg["integ"], cfg.get("o", {}))
     else:
         raise ValueError(op)
 
@@ -399,6 +407,108 @@ class GetSim:
         return V
 
 
+class Crowded:
+    """a packed planetary system in which two bodies merge early: save points after the merger, long continuation (the hybrid
+    integrators reject and repeat steps there; whatever decides that must be part of the restored state)"""
+    def __init__(self, rebound):
+        self.rebound = rebound
+
+    def make(self, integ, o, layout):
+        import random
+        rng = random.Random(layout)         # a fixed list of layouts, not a sample: the same phases in every run
+        rebound = self.rebound
+        sim = rebound.Simulation()
+        sim.add(m=1.0)
+        for i in range(8):
+            sim.add(m=3e-4, a=1.0 + 0.09 * i, e=0.02, f=rng.uniform(0, 6.28), omega=rng.uniform(0, 6.28), r=1e-5)
+        sim.add(m=1e-5, a=4.0, f=0.0, r=0.015)
+        sim.add(m=1e-5, a=4.0, f=0.01, r=0.015)
+        sim.move_to_com()
+        lattice.apply_options(sim, integ, o)
+        sim.collision = "direct"
+        sim.collision_resolve = "merge"
+        sim.dt = 0.15
+        return sim
+
+    def __call__(self, task):
+        integ, o, layout, via, nsave = task
+        rb.quiet()
+        rebound = self.rebound
+        sim = self.make(integ, o, layout)
+        N0 = sim.N
+        sim.steps(nsave)
+        if sim.N == N0:
+            return [("harness:no-merger", "the two touching bodies did not merge within %d steps [%s%s layout %d]" % (nsave, integ, o, layout))]
+        if via == "copy":
+            c = sim.copy()
+        else:
+            fn = "/var/tmp/c05crowd_%d.bin" % os.getpid()
+            sim.save_to_file(fn, delete_file=True)
+            c = rebound.Simulation(fn)
+            os.remove(fn)
+        c.collision_resolve = "merge"
+        if integ == "mercurius" and "L" in o:
+            c.ri_mercurius.L = o["L"]
+        tag = "%s%s, layout %d, saved via %s %d steps in (after the merger)" % (integ, o, layout, via, nsave)
+        for k in range(15):
+            sim.steps(10)
+            c.steps(10)
+            if sim.N != c.N or rb.bits(sim.t) != rb.bits(c.t) or rb.bits(sim.dt) != rb.bits(c.dt) or rb.pstate(sim) != rb.pstate(c):
+                what = "N" if sim.N != c.N else ("t" if sim.t != c.t else ("dt" if sim.dt != c.dt else "particles"))
+                return [("crowded:continue:%s:%s" % (integ, what), "original and restored simulation differ in %s within %d further steps [%s]" % (what, 10 * (k + 1), tag))]
+        return []
+
+
+class FinalSnapshot:
+    """the snapshot an automatic archive takes when integrate(tmax) ends on a snapshot time (last step shortened to hit tmax):
+    it must restore to the simulation that integrate() returns and continue like it"""
+    def __init__(self, rebound, leaves):
+        self.rebound, self.leaves = rebound, leaves
+        self.names = None
+
+    def __call__(self, task):
+        integ, o, cadence, eft = task
+        rb.quiet()
+        rebound = self.rebound
+        if self.names is None:
+            self.names = rb.field_names()
+        sim, P = lattice.make_sim(rebound, {"integ": integ, "o": o, "sys": "S3", "tp": 0, "dtsign": 1})
+        dt0 = sim.dt
+        fd, fn = tempfile.mkstemp(prefix="c05f-", suffix=".bin", dir=os.environ.get("VERIF_TMP", "/var/tmp"))
+        os.close(fd)
+        os.unlink(fn)
+        tmax = 7.3 * dt0            # not a multiple of the step
+        V = []
+        tag = "%s%s, archive %s, integrate(7.3 dt) with exact_finish_time=%d" % (integ, o, cadence, eft)
+        try:
+            if cadence == "interval":
+                sim.save_to_file(fn, interval=tmax / 2, delete_file=True)
+            else:
+                sim.save_to_file(fn, step=4, delete_file=True)
+            sim.integrate(tmax, exact_finish_time=eft)
+            sa = rebound.Simulationarchive(fn)
+            res = sa[-1]
+        finally:
+            if os.path.exists(fn):
+                os.unlink(fn)
+        if res.t != sim.t:
+            return V        # the last snapshot was not taken at the end of the run: nothing to compare
+        lattice.reattach(res, integ, o)
+        f1 = rb.fields_masked(rb.stream(sim))
+        f2 = rb.fields_masked(rb.stream(res))
+        d = [x for x in rb.diff_fields(f1, f2, self.names) if "walltime" not in str(x) and "simulationarchive" not in str(x)]
+        if d:
+            V.append(("final-snapshot:fields:%s:%s" % (integ, ",".join(map(str, d[:3]))), "the snapshot taken when integrate() ended differs from the returned simulation in %s [%s]" % (d[:6], tag)))
+            return V
+        a, b = sim.copy(), res
+        lattice.reattach(a, integ, o)
+        a.steps(7)
+        b.steps(7)
+        if rb.bits(a.t) != rb.bits(b.t) or rb.pstate(a) != rb.pstate(b):
+            V.append(("final-snapshot:continue:%s" % integ, "7 further steps from the final snapshot and from the returned simulation differ [%s]" % tag))
+        return V
+
+
 def configs(tier, avx):
     cfgs = []
     pts = lattice.integrator_points("full", avx=avx)
@@ -529,8 +639,31 @@ def run(ctx):
             continue
         for sig, what in r[1]:
             ctx.violation(sig, what, {"kind": "getsim", "task": list(t)})
+    # long continuations after a merger in a packed system
+    crt = []
+    for integ, o in [("trace", {"peri_mode": pm}) for pm in ("PARTIAL_BS", "FULL_BS", "FULL_IAS15")] + [("mercurius", {}), ("mercurius", {"safe_mode": 0}), ("ias15", {}), ("whfast", {}), ("bs", {})]:
+        for layout in ((4, 5, 7) if ctx.tier == "quick" else (3, 4, 5, 6, 7, 8)):
+            for via in ("copy", "file"):
+                crt.append((integ, o, layout, via, 40))
+    cres = pool.run_tasks(Crowded(rebound), crt, timeout=600, chunk=1)
+    for t, r in zip(crt, cres):
+        if r[0] != "ok":
+            ctx.violation("crowded-%s:%s" % (r[0], t[0]), "%s in crowded-system case %s: %s" % (r[0], t, str(r[1])[-400:]), {"kind": "crowded", "task": list(t)})
+            continue
+        for sig, what in r[1]:
+            ctx.violation(sig, what, {"kind": "crowded", "task": list(t)})
+    # the automatic snapshot at the end of integrate()
+    fst = [(integ, o, cad, eft) for integ, o in [("whfast", {}), ("whfast", {"safe_mode": 0}), ("leapfrog", {}), ("ias15", {}), ("mercurius", {}), ("saba", {"type": "10,6,4"}), ("eos", {"phi0": "lf4", "phi1": "lf", "n": 2}), ("trace", {}), ("bs", {}), ("janus", {"order": 4})]
+           for cad in ("interval", "step") for eft in (1, 0)]
+    fres = pool.run_tasks(FinalSnapshot(rebound, leaves), fst, timeout=120, chunk=1)
+    for t, r in zip(fst, fres):
+        if r[0] != "ok":
+            ctx.violation("final-snapshot-%s:%s" % (r[0], t[0]), "%s in final-snapshot case %s: %s" % (r[0], t, str(r[1])[-400:]), {"kind": "final", "task": list(t)})
+            continue
+        for sig, what in r[1]:
+            ctx.violation(sig, what, {"kind": "final", "task": list(t)})
     cov = {
-        "whfast512_cases": n_w512,
+        "whfast512_cases": n_w512, "crowded_system_cases": len(crt), "final_snapshot_cases": len(fst),
         "states": len(states), "transitions": trans + nA, "traces_validated_against_impl": trans + nA,
         "samples": samples or [{"cfg": cfgs[0], "history": []}],
         "configs": len(cfgs), "histories_per_config": len(H), "max_depth": depth,
@@ -553,6 +686,14 @@ def replay(ctx, case):
     L = CLayouts(os.path.join(dbg, "obj"))
     size, leaves = L.get("struct reb_simulation")
     settable = settable_members(os.path.join(dbg, "include"), "/repo/docs")
+    if case.get("kind") == "final":
+        V = FinalSnapshot(rebound, leaves)(tuple(case["task"]))
+        print(V)
+        return 1 if V else 0
+    if case.get("kind") == "crowded":
+        V = Crowded(rebound)(tuple(case["task"]))
+        print(V)
+        return 1 if V else 0
     if case.get("kind") == "field":
         r = FieldCase(rebound, leaves, size)((case["path"], case["via"]))
         print(r)
